@@ -81,7 +81,7 @@ def gen_cases(ctx):
             a = sem.pg_empty(cls)
         else:
             nn = rng.randint(1, 7)
-            a = gen.random_pg(rng, cls, n_range=(nn, nn), alphabet=alpha, p_stereo=0.7, allow_isolated=rng.random() < 0.2)
+            a = gen.random_pg(rng, cls, n_range=(nn, nn), alphabet=alpha, p_stereo=0.7, allow_isolated=rng.random() < 0.2, attrs=rng.random() < 0.25)
         how = rng.random()
         if how < 0.5:
             b = sem.pg_relabel(a, gen.random_bijection(rng, a))
